@@ -20,8 +20,9 @@ var (
 )
 
 type stall struct {
-	Pos  int    `json:"pos"`  // stream offset; the stall happens once, before the byte at Pos is delivered (Pos == len(stream): before the final EOF)
+	Pos  int    `json:"pos"`  // stream offset; the stall happens before the byte at Pos is delivered (Pos == len(stream): before the final EOF)
 	Kind string `json:"kind"` // eof | nil | err
+	N    int    `json:"n,omitempty"` // how many consecutive reads stall there (0 means 1): an idle line polled several times
 }
 
 // transport is the io.Reader under the SLIP reader: it delivers the stream in
@@ -30,7 +31,7 @@ type stall struct {
 type transport struct {
 	data        []byte
 	pos         int
-	stalls      map[int]string
+	stalls      map[int][]string
 	maxN        int  // most bytes returned by one Read
 	eofWithLast bool // the final byte is returned together with io.EOF (n > 0, err == io.EOF)
 	finalEOFs   int  // how often the end of stream has been reported
@@ -38,13 +39,15 @@ type transport struct {
 }
 
 func newTransport(data []byte, stalls []stall, maxN int, eofWithLast bool) *transport {
-	t := &transport{data: data, stalls: map[int]string{}, maxN: maxN, eofWithLast: eofWithLast}
+	t := &transport{data: data, stalls: map[int][]string{}, maxN: maxN, eofWithLast: eofWithLast}
 	if t.maxN < 1 {
 		t.maxN = 1
 	}
 	for _, s := range stalls {
 		if s.Pos >= 0 && s.Pos <= len(data) {
-			t.stalls[s.Pos] = s.Kind
+			for i := 0; i < s.N || i == 0; i++ {
+				t.stalls[s.Pos] = append(t.stalls[s.Pos], s.Kind)
+			}
 		}
 	}
 	return t
@@ -55,8 +58,13 @@ func (t *transport) Read(p []byte) (int, error) {
 	if len(p) == 0 {
 		return 0, nil
 	}
-	if k, ok := t.stalls[t.pos]; ok {
-		delete(t.stalls, t.pos)
+	if ks, ok := t.stalls[t.pos]; ok {
+		k := ks[0]
+		if len(ks) == 1 {
+			delete(t.stalls, t.pos)
+		} else {
+			t.stalls[t.pos] = ks[1:]
+		}
 		switch k {
 		case stallNil:
 			return 0, nil
